@@ -22,26 +22,44 @@ from vlib.common import Rng
 
 CLAIMED = True
 LEVEL = "proof"
-TECHNIQUE = ("Lean 4 proof (iterative KeyTable walk = document order by a zipper invariant; table lookup = filter of the "
-             "declarations; per-document cache history independence by induction over call sequences) + translator for "
-             "FunctionKey's guard + three-way correspondence (real key() / in-transformation brute force / Lean model)")
-LEVEL_TEXT = ("Machine-checked: for every tree, declaration list, name and value the transcribed KeyTable constructor walk "
-              "tests every node and attribute exactly once in document order, the built table answers with the document-order "
-              "filter of the XSLT 12.2 definition, imports are merged completely, and any sequence of key() calls over any "
-              "documents returns what the same call returns on fresh tables (unconditional), which is the specified union "
-              "(Props/C15.lean). Two places where the unchanged code violates the full statement are proved as counterexamples "
-              "and replayed on the real library. Pattern matching and use-evaluation are abstract parameters of the theorems. "
-              "Tied to the working tree by generated multi-document, multi-module stylesheets run through the real library and "
-              "through the compiled model, and by regenerating FunctionKey's guard from source.")
+TECHNIQUE = ("Lean 4 proof over a hand transcription of KeyTable / StylesheetRoot::getNodeSetByKey / FunctionKey / "
+             "Stylesheet::postConstruction / addNodeInDocOrder (zipper invariant for the iterative walk, loop invariant for the "
+             "binary insertion-point search, table invariant over document-order prefixes, cache transparency by induction "
+             "over call sequences), instantiated for concrete documents and the generated pattern/use fragment; three "
+             "translators regenerate the source-dependent facts (FunctionKey guard, the two getNodeSetByKey overloads, the "
+             "context list of `use`); three-way correspondence run (real key() / in-transformation brute force / compiled "
+             "Lean model), also on the ASan+UBSan build in the thorough tier")
+LEVEL_TEXT = ("Machine-checked for all inputs (Props/C15.lean, 22 theorems): the transcribed KeyTable constructor walk tests every "
+              "node and attribute exactly once in document order; the table it builds answers getNodeSetByKey(name, value) with "
+              "the document-order list of the nodes that match a declaration of that name and have the value among their use "
+              "values (XSLT 1.0 12.2), null exactly for undeclared names; with strip-aware matching the answer is the "
+              "specification on the stripped tree; declarations of all imported modules are merged; the binary insertion-point "
+              "search equals the linear one on ordered lists; getKeyNode reaches the top of the context node's tree (document or "
+              "result tree fragment); every sequence of key() calls over any documents answers, call by call, what fresh tables "
+              "answer for the document of the XPath context node (independent of history, of the XSLT current node and of a "
+              "name prefix), which is the specified union over the argument's string values. key_spec is also proved without "
+              "hypotheses for the concrete documents and the concrete pattern/use evaluators of the generated fragment. The "
+              "model is tied to the working tree by three translators (a changed fact flips a generated flag the model follows, "
+              "or stops generated_overloads_use_context from compiling) and by generated multi-document, multi-module "
+              "stylesheets run through the real library and the compiled model (quick 6003 cases, thorough 40813 plus 4003 on "
+              "the ASan build); every key() answer is also compared inside the same transformation with the brute-force "
+              "defining expression.")
 LEVEL_NOTE = ("Trusted: Lean kernel; axioms propext/Classical.choice/Quot.sound only; the hand transcription of KeyTable.cpp, "
-              "StylesheetRoot::getNodeSetByKey, FunctionKey::execute, Stylesheet::postConstruction (validated by the "
-              "correspondence run, bounded by generator coverage); translate/c15_functionkey.py. Modelled, not verified: "
-              "XalanMap as an association list; addNodeInDocOrder for one XalanSourceTree document incl. the binary insertion-point search (multi-document "
-              "lists are C12); XPath match/use evaluation (abstract in the theorems; a "
-              "spec-style evaluator for the generated fragment plus the observed getMatchScore behaviour on the document node in "
-              "the driver); XalanSourceTree node indices increasing in document order; generate-id() injective. Covered by the "
-              "correspondence run only (abstract in the theorems): xsl:strip-space, result tree fragments, positional predicates, "
-              "rejection of key() inside match/use. Not modelled: namespace nodes, multi-document node lists (C12).")
+              "StylesheetRoot::getNodeSetByKey/getKeyNode, StylesheetExecutionContextDefault::getNodeSetByKey, "
+              "FunctionKey::execute, Stylesheet::postConstruction and the single-document path of "
+              "MutableNodeRefList::addNodeInDocOrder (validated by the correspondence run, bounded by generator coverage); "
+              "translate/c15_functionkey.py, c15_execcontext.py, c15_keytable.py (regex over the named functions; an "
+              "unrecognised shape is a broken obligation); harness, generator/renderer and the decoding of generate-id(). "
+              "Modelled, not verified: XalanMap as an association list; XalanSourceTree as an inductive tree with a zipper "
+              "cursor, node indices increasing in document order with the document node first (proved for the driver's "
+              "documents, assumed of XalanSourceTree); Xalan's XPath engine for match and use (abstract parameters in the general "
+              "theorems; the concrete theorem is about the specification-style evaluators of Concrete.lean for the generated "
+              "fragment, which the run compares with Xalan's brute-force answers); the strip-awareness of pattern matching is a "
+              "hypothesis of key_spec_strip (C13); generate-id() injective. Covered by the correspondence run only: positional "
+              "predicates, namespace nodes as use values, rejection of key() inside match/use, sort-key / with-param / AVT call "
+              "sites. Not modelled: node lists spanning several documents in addNodeInDocOrder (C12), template-level evaluation "
+              "order. No known finding is open; four defects found by this check were repaired in /repo (44426a2, 64b58da, "
+              "4c14898, 381eb10).")
 DESIGN_REF = "DESIGN.md section 5, C15; design/C15.md"
 
 THEOREMS = [
@@ -49,6 +67,8 @@ THEOREMS = [
     "XalanModel.Props.C15.walk_action_in_doc_order",
     "XalanModel.Props.C15.key_spec",
     "XalanModel.Props.C15.key_lookup_total",
+    "XalanModel.Props.C15.key_spec_strip",
+    "XalanModel.Props.C15.key_node_is_tree_top",
     "XalanModel.Props.C15.imports_merged",
     "XalanModel.Props.C15.key_spec_stylesheet",
     "XalanModel.Props.C15.key_context_document",
@@ -63,6 +83,8 @@ THEOREMS = [
     "XalanModel.Props.C15.key_history_independent",
     "XalanModel.Props.C15.key_answer_same_after_any_history",
     "XalanModel.Props.C15.key_calls_spec",
+    "XalanModel.Props.C15.key_spec_concrete",
+    "XalanModel.Props.C15.concrete_env_indexed",
 ]
 
 HERE = os.path.dirname(os.path.abspath(__file__))
@@ -255,12 +277,13 @@ def judge(case, res):
             i = int(t[1])
             ck, cb, cu = int(t[2]), int(t[3]), int(t[4])
             kpos = t.index("K"); bpos = t.index("B", kpos); rpos = t.index("R", bpos)
-            seen[i] = (ck, cb, cu, t[kpos + 1:bpos], t[bpos + 1:rpos], t[rpos + 1:])
+            xpos = t.index("X", rpos) if "X" in t[rpos:] else len(t)
+            seen[i] = (ck, cb, cu, t[kpos + 1:bpos], t[bpos + 1:rpos], t[rpos + 1:xpos], t[xpos + 1:])
     for i, c in enumerate(calls):
         if i not in seen:
             probs.append(("corr", "no-output[call %d]" % i, "no Q line for call %d (context node not found?)" % i))
             continue
-        ck, cb, cu, kg, bg, rg = seen[i]
+        ck, cb, cu, kg, bg, rg, xg = seen[i]
         try:
             K = [gid[g] for g in kg]; B = [gid[g] for g in bg]; R = [gid[g] for g in rg]
         except KeyError as e:
@@ -278,6 +301,25 @@ def judge(case, res):
         Bset = set(B) | set(R)
         Bidx = sorted(j for (_, j) in Bset)
         Kidx = [j for (_, j) in K]
+        # --- the same call from a second call site (with-param select / attribute value template / sort key), evaluated
+        # while the XSLT current node is elsewhere: must agree with the variable-select site
+        if xg:
+            site, rest = xg[0], xg[1:]
+            other = None
+            if site == "param":
+                other = [gid.get(g) for g in rest]
+                okx = other == K
+            elif site == "avt":
+                other = rest
+                okx = rest == [str(len(K))]
+            else:   # sort by the boolean "is in its own key() result": the nodes outside K in document order, then K
+                allnodes = sorted(v for v in gid.values() if v[0] == c["doc"])
+                expect = [v for v in allnodes if v not in K] + [v for v in allnodes if v in K]
+                other = [gid.get(g) for g in rest]
+                okx = other == expect
+            if not okx:
+                probs.append(("violation", "key.differs-by-call-site[%s]: %s" % (site, desc),
+                              "key() evaluated in a %s gives %s, in the variable select %s" % (site, other, K)))
         # --- the property evaluated on the implementation, independent of the model
         bad = None
         if (trust_counts and not (ck == cb == cu and ck == len(K))) or set(K) != Bset:
@@ -475,13 +517,15 @@ def run(ctx):
                 "scalar `use`), 2-16 shuffled key() calls (string and node-set arguments, contexts in any document); "
                 "non-trivial = a case where at least one key() call returns a non-empty node-set; distinct = distinct request text")
     ctx.trusted += [
-        "translate/c15_functionkey.py (regex over FunctionKey::execute)",
+        "translate/c15_functionkey.py, c15_execcontext.py, c15_keytable.py (regex over FunctionKey::execute, the two "
+        "StylesheetExecutionContextDefault::getNodeSetByKey overloads, KeyTable::processKeyDeclaration)",
         "harness/c15_keys.cpp + gen/c15_gen.py + checks/c15.py (generator, renderer of documents/stylesheets, decoding of generate-id())",
-        "modelled, not verified: XalanMap as association list; addNodeInDocOrder for one XalanSourceTree document (multi-document lists: C12); match/use evaluation abstract in the theorems, spec-style evaluator for the "
-        "generated fragment (+ observed getMatchScore behaviour on the document node) in the driver; XalanSourceTree indices "
-        "increase in document order; generate-id() injective",
-        "correspondence only: xsl:strip-space, result tree fragments, positional predicates, rejection of key() inside match/use; "
-        "not modelled: namespace nodes, multi-document node lists",
+        "modelled, not verified: XalanMap as association list; XalanSourceTree as an inductive tree with a zipper cursor; the "
+        "single-document path of addNodeInDocOrder (multi-document lists: C12); Xalan's match/use evaluation (abstract in the "
+        "general theorems; the concrete theorem is about Concrete.lean's specification-style evaluators, compared with Xalan's "
+        "brute-force answers by the run); strip-aware matching is a hypothesis of key_spec_strip; generate-id() injective",
+        "correspondence only: positional predicates, namespace nodes as use values, rejection of key() inside match/use, "
+        "sort-key / with-param / AVT call sites",
     ]
     ctx.build("hooks")
     ctx.translate("c15_functionkey")
